@@ -8,6 +8,7 @@ package main
 
 import (
 	"fmt"
+	"go/token"
 	"go/types"
 	"sort"
 
@@ -217,4 +218,128 @@ func runNumericDecoders(c *Ctx, fns []*ssa.Function, rule string) {
 		}
 	}
 	c.Stats[rule+" numeric parse calls"] = n
+	// a decimal cell is turned into a float64 by strconv.ParseFloat only: a decoder of the parser that takes text and
+	// answers with a float64 (or a pointer to one) returns ParseFloat's result as it is. A value put together by the
+	// decoder's own arithmetic (digits accumulated in an integer and scaled by a power of ten, a float32 detour) is
+	// rounded more than once and differs from the nearest float64 of the text for long literals.
+	for _, f := range fns {
+		if len(f.Blocks) == 0 || f.Signature.Results().Len() == 0 {
+			continue
+		}
+		takesText := false
+		for _, prm := range f.Params {
+			if bt, ok := prm.Type().Underlying().(*types.Basic); ok && bt.Info()&types.IsString != 0 {
+				takesText = true
+			}
+		}
+		if !takesText {
+			continue
+		}
+		isF64 := func(t types.Type) bool {
+			bt, ok := t.Underlying().(*types.Basic)
+			return ok && bt.Kind() == types.Float64
+		}
+		var resIdx []int
+		for i := 0; i < f.Signature.Results().Len(); i++ {
+			t := f.Signature.Results().At(i).Type()
+			if pt, isPtr := t.Underlying().(*types.Pointer); isPtr {
+				t = pt.Elem()
+			}
+			if isF64(t) {
+				resIdx = append(resIdx, i)
+			}
+		}
+		if len(resIdx) == 0 {
+			continue
+		}
+		bad := ""
+		seen := map[ssa.Value]bool{}
+		var trace func(v ssa.Value, d int)
+		trace = func(v ssa.Value, d int) {
+			if v == nil || seen[v] || bad != "" || d > 12 {
+				return
+			}
+			seen[v] = true
+			switch x := v.(type) {
+			case *ssa.Const:
+			case *ssa.Phi:
+				for _, e := range x.Edges {
+					trace(e, d+1)
+				}
+			case *ssa.Alloc:
+				for _, sv := range cellStores(x) {
+					trace(sv, d+1)
+				}
+			case *ssa.UnOp:
+				if x.Op == token.MUL {
+					if al, ok := x.X.(*ssa.Alloc); ok {
+						trace(al, d+1)
+						return
+					}
+					return // a float read from elsewhere (a field, a parameter): not computed here
+				}
+				if x.Op == token.SUB {
+					trace(x.X, d+1) // the sign
+					return
+				}
+				bad = "computed by " + x.Op.String() + " at " + p.ipos(x)
+			case *ssa.Extract:
+				call, ok := x.Tuple.(*ssa.Call)
+				if !ok {
+					return
+				}
+				if calleeName(call) == "strconv.ParseFloat" && x.Index == 0 {
+					return
+				}
+				if g := staticCallee(call); g != nil && p.isModuleFn(g) && len(g.Blocks) > 0 {
+					for _, gb := range g.Blocks {
+						if ret, isRet := gb.Instrs[len(gb.Instrs)-1].(*ssa.Return); isRet && x.Index < len(ret.Results) {
+							trace(ret.Results[x.Index], d+1)
+						}
+					}
+				}
+			case *ssa.Call:
+				if g := staticCallee(x); g != nil && p.isModuleFn(g) && len(g.Blocks) > 0 {
+					for _, gb := range g.Blocks {
+						if ret, isRet := gb.Instrs[len(gb.Instrs)-1].(*ssa.Return); isRet && len(ret.Results) == 1 {
+							trace(ret.Results[0], d+1)
+						}
+					}
+				}
+			case *ssa.BinOp:
+				bad = "computed by " + x.Op.String() + " at " + p.ipos(x)
+			case *ssa.Convert:
+				if !isF64(x.X.Type()) {
+					bad = "converted from " + shortType(x.X.Type()) + " at " + p.ipos(x)
+				} else {
+					trace(x.X, d+1)
+				}
+			case *ssa.ChangeType:
+				trace(x.X, d+1)
+			}
+		}
+		usesParse := false
+		for _, b := range f.Blocks {
+			for _, in := range b.Instrs {
+				if call, ok := in.(*ssa.Call); ok && calleeName(call) == "strconv.ParseFloat" {
+					usesParse = true
+				}
+			}
+			if ret, isRet := b.Instrs[len(b.Instrs)-1].(*ssa.Return); isRet {
+				for _, i := range resIdx {
+					if i < len(ret.Results) {
+						trace(ret.Results[i], 0)
+					}
+				}
+			}
+		}
+		if !usesParse && bad == "" {
+			continue // not a decoder of decimal text (an accessor, a formatter)
+		}
+		if bad != "" {
+			c.Violated(rule, shortName(f), "decimal text becomes a float64 through strconv.ParseFloat only", p.pos(f.Pos()), "a returned float64 is "+bad+" instead of being strconv.ParseFloat's result: the decoder's own arithmetic rounds more than once, so long literals (16 and more significant digits) do not decode to the nearest float64")
+		} else {
+			c.Proved(rule, shortName(f), "decimal text becomes a float64 through strconv.ParseFloat only", p.pos(f.Pos()), "every returned float64 is strconv.ParseFloat's result (or a constant)")
+		}
+	}
 }
